@@ -173,6 +173,20 @@ def step_obligations(prop="C13"):
             o["flags"] = cfg["checks"]
         o["strength"] = "B(stack depth pinned: 5 slots of capacity 8; operand slots hold scalars or strings, no arrays)"
         obs.append(o)
+    # further STEP_OPEN opcodes with the depth pinned and every slot a scalar (int / float / bool / void): the fault paths and the
+    # arithmetic arms of the handler, none of its heap arms.  Bounded stand-ins; registered only where they close (STEP_SCALAR).
+    for op, tier in STEP_SCALAR.items():
+        o = vmstep.step(prop, "%s.step.%s.s5.scalaronly" % (prop, op), "h_step", op, must_have=[r"C13\.step", r"COVER"], timeout=900)
+        cfg = STEP_CFG.get(op, {})
+        for k in ("VERIF_M0", "VERIF_M1", "VERIF_M2"):
+            o["defines"][k] = 1
+        o["defines"].update(cfg.get("defs", {}))
+        o["defines"]["VERIF_STACK_SIZE"] = 5
+        if cfg.get("checks"):
+            o["flags"] = cfg["checks"]
+        o["tier"] = tier
+        o["strength"] = "B(stack depth pinned: 5 slots of capacity 8; every slot holds a scalar)"
+        obs.append(o)
     return obs
 
 
@@ -180,6 +194,9 @@ def step_obligations(prop="C13"):
 # POP 400 s, STORE_GLOBAL 443 s, LOAD_GLOBAL 456 s, GC_RELEASE 471 s.  Still open with the depth pinned: ADD SUB MUL DIV (memory),
 # CALL* RET LOAD/STORE_UPVALUE HM_SET HM_DELETE HM_KEYS HM_VALUES (600 s), ARR_SLICE (needs every element materialised;
 # its semantics and census are C02.vm.ARR_SLICE / C14.step.ARR_SLICE.bounded).
+# measured: STORE_UPVALUE 542 s (8 queries in parallel); ADD runs out of 10 GB even so; DIV RET LOAD_UPVALUE HM_SET HM_DELETE CALL
+# were not decided within 700 s and stay open
+STEP_SCALAR = {"STORE_UPVALUE": "thorough"}
 STEP_PINNED = {"ARR_PUSH": "quick", "HM_NEW": "quick", "HM_LEN": "quick", "HM_HAS": "quick", "HM_GET": "quick",
                "POP": "thorough", "STORE_GLOBAL": "thorough", "LOAD_GLOBAL": "thorough", "GC_RELEASE": "thorough"}
 
